@@ -34,6 +34,7 @@ func nextOCSPSerial() *big.Int { return big.NewInt(atomic.AddInt64(&ocspSerial, 
 type ocspPKI struct {
 	Root, CA, Sibling, Stranger *CA
 	Delegate, DelegateNoEKU     *CA
+	Rekeyed                     *CA // same distinguished name as CA, another key
 }
 
 func newOCSPPKI(name string) *ocspPKI {
@@ -44,6 +45,7 @@ func newOCSPPKI(name string) *ocspPKI {
 	p.Stranger = NewRootCA("OCSP Stranger "+name, false)
 	p.Delegate = newCert(p.CA, CAOpts{Name: pkix.Name{CommonName: "OCSP Delegate " + name}, NotCA: true, KeyUsage: x509.KeyUsageDigitalSignature, OCSPSign: true})
 	p.DelegateNoEKU = newCert(p.CA, CAOpts{Name: pkix.Name{CommonName: "OCSP NoEKU " + name}, NotCA: true, KeyUsage: x509.KeyUsageDigitalSignature})
+	p.Rekeyed = newCert(p.Root, CAOpts{Name: p.CA.Cert.Subject})
 	return p
 }
 
@@ -102,6 +104,9 @@ func (p *ocspPKI) makeResponse(s respSpec, leaf *Leaf, serial *big.Int) []byte {
 		issuer, responder, key = p.Stranger.Cert, d.Cert, d.Key
 	case "sibling":
 		issuer, responder, key = p.Sibling.Cert, p.Sibling.Cert, p.Sibling.Key
+	case "rekeyed-trusted":
+		// a certificate with the issuer's name and another key, configured as trusted responder certificate
+		issuer, responder, key = p.Rekeyed.Cert, p.Rekeyed.Cert, p.Rekeyed.Key
 	}
 	if bare {
 		issuer = p.CA.Cert
@@ -163,8 +168,9 @@ type c02Case struct {
 	Strict     bool     `json:"strict"`
 	Cache      string   `json:"cache"`
 	Chain      string   `json:"chain"`
-	First      string   `json:"first"`  // verdict of the first handshake
-	Second     string   `json:"second"` // verdict of a second handshake with every responder down
+	Upper      bool     `json:"scheme_in_upper_case"` // responder URLs written HTTP://...
+	First      string   `json:"first"`                // verdict of the first handshake
+	Second     string   `json:"second"`               // verdict of a second handshake with every responder down
 	Hits       []int    `json:"hits"`
 	WantFirst  string   `json:"want_first"`
 	WantSecond string   `json:"want_second"`
@@ -252,6 +258,12 @@ func runC02(c *Ctx) {
 			}
 		}
 	}
+	// the scheme of a responder URL is case-insensitive (RFC 3986): the same single-responder cases with HTTP://
+	for _, b := range c02Behaviours {
+		for _, strict := range []bool{false, true} {
+			cases = append(cases, &c02Case{Responders: []string{b}, Strict: strict, Cache: "", Chain: "sub", Upper: true})
+		}
+	}
 	var wg sync.WaitGroup
 	sem := make(chan struct{}, 32)
 	refusedURL := closedPortURL("/ocsp")
@@ -274,6 +286,13 @@ func runC02(c *Ctx) {
 					urls = append(urls, refusedURL)
 				default:
 					urls = append(urls, org.URL(path))
+				}
+			}
+			if cs.Upper {
+				for k := range urls {
+					if strings.HasPrefix(urls[k], "http://") {
+						urls[k] = "HTTP://" + strings.TrimPrefix(urls[k], "http://")
+					}
 				}
 			}
 			leaf := p.CA.IssueLeaf(LeafOpts{CN: fmt.Sprintf("c02-%d", i), Serial: nextOCSPSerial(), OCSP: urls})
@@ -343,13 +362,13 @@ func runC02(c *Ctx) {
 		c.Count("first=" + cs.First)
 		if cs.First != cs.WantFirst {
 			tag := ""
-			c.Fail(tag, fmt.Sprintf("responders %v strict=%v: handshake %s, property demands %s", cs.Responders, cs.Strict, cs.First, cs.WantFirst), cs)
+			c.Fail(tag, fmt.Sprintf("responders %v strict=%v (scheme in upper case: %v): handshake %s, property demands %s", cs.Responders, cs.Strict, cs.Upper, cs.First, cs.WantFirst), cs)
 		} else if cs.Second != cs.WantSecond {
 			c.Fail("", fmt.Sprintf("responders %v strict=%v cache=%q: second handshake (all responders down) %s, expected %s", cs.Responders, cs.Strict, cs.Cache, cs.Second, cs.WantSecond), cs)
 		}
 		// responders after the deciding one must not be contacted
 		if len(cs.Responders) > 0 {
-			c.Nontrivial(fmt.Sprintf("%v|%v|%s", cs.Responders, cs.Strict, cs.Cache))
+			c.Nontrivial(fmt.Sprintf("%v|%v|%s|%v", cs.Responders, cs.Strict, cs.Cache, cs.Upper))
 		}
 		if i%97 == 0 {
 			c.Sample(cs)
@@ -405,8 +424,9 @@ type c05Case struct {
 
 func runC05(c *Ctx) {
 	p := newOCSPPKI("c05")
+	rekeyedPEM := writeCertPEM(c, p.Rekeyed.Cert)
 	var cases []*c05Case
-	for _, signer := range []string{"issuer", "delegate", "delegate-noeku", "leaf", "stranger", "stranger-embedded", "sibling", "leaf-bare", "delegate-noeku-bare", "stranger-bare", "sibling-bare"} {
+	for _, signer := range []string{"issuer", "delegate", "delegate-noeku", "leaf", "stranger", "stranger-embedded", "sibling", "leaf-bare", "delegate-noeku-bare", "stranger-bare", "sibling-bare", "rekeyed-trusted", "rekeyed-trusted-bare"} {
 		for _, serial := range []string{"this", "other"} {
 			for _, status := range []string{"good", "revoked", "unknown"} {
 				cases = append(cases, &c05Case{Spec: respSpec{Signer: signer, Status: status, Serial: serial}, Strict: true})
@@ -434,7 +454,11 @@ func runC05(c *Ctx) {
 			}
 			w.Write(b)
 		})
-		v, err := NewValidator(VCfg{Mode: "ocsp_only", AIAStrict: cs.Strict, CacheDuration: "1h", NoCRLConfig: true})
+		vc := VCfg{Mode: "ocsp_only", AIAStrict: cs.Strict, CacheDuration: "1h", NoCRLConfig: true}
+		if strings.HasPrefix(cs.Spec.Signer, "rekeyed-trusted") {
+			vc.TrustedResponders = []string{rekeyedPEM}
+		}
+		v, err := NewValidator(vc)
 		mustNoErr(err)
 		deferClose(v)
 		cs.First = classify(v.Verify(leaf.Cert, p.CA.Cert, p.Root.Cert))
@@ -525,9 +549,48 @@ func runC05(c *Ctx) {
 			c.Sample(cs)
 		}
 	}
+	for _, shape := range []string{"", " (certificates without AKI)", " (certificates without SKI)"} {
+		cs := twoIssuerCase(p, shape)
+		c.Count("two-issuers")
+		c.Nontrivial("two-issuers" + shape)
+		for k := range cs.Obs {
+			if cs.Obs[k] != cs.Want[k] {
+				c.Fail("", fmt.Sprintf("%s: %s -> %s, expected %s (an answer for another issuer's certificate was used)", cs.Name, cs.Events[k], cs.Obs[k], cs.Want[k]), cs)
+			}
+		}
+	}
 	c.WriteCoqSharded("cases_C05", "From Verif Require Import Base Ocsp RunOcsp.\nOpen Scope N_scope.\n", "ocase", items, "ocsp_mismatches", 120)
 	c.Rep.Cases = len(cases) + len(muts)
 	c.Rep.Rule = "one responder, ocsp_aia_strict on, cache 1h: signer {issuer, delegate with/without OCSPSigning EKU, the client's own certificate, stranger with/without embedded certificate, sibling CA; the non-issuer signers also without embedded certificate under the real issuer's CertID} x serial {this, other} x status {good, revoked, unknown}; the four OCSP error statuses; every 3rd (thorough: every) single-byte mutation of an authentic good and an authentic revoked response; second handshake with the responder down shows what was cached"
+}
+
+// twoIssuerCase: two certificates with the same subject and serial number under two issuers; the first is good, the
+// second revoked.  Whatever the cache is keyed by must tell them apart.
+func twoIssuerCase(p *ocspPKI, shape string) *c14Case {
+	cs := &c14Case{Name: "same-subject-and-serial-under-two-issuers" + shape}
+	org := NewOrigin()
+	defer org.Close()
+	name := pkix.Name{CommonName: "alice", Organization: []string{"shared"}}
+	serial := nextOCSPSerial()
+	o1 := LeafOpts{Name: &name, Serial: serial, OCSP: []string{org.URL("/ca")}}
+	o2 := LeafOpts{Name: &name, Serial: serial, OCSP: []string{org.URL("/sib")}}
+	switch shape {
+	case " (certificates without AKI)":
+		o1.NoAKI, o2.NoAKI = true, true
+	case " (certificates without SKI)":
+		o1.NoSKI, o2.NoSKI = true, true
+	}
+	l1 := p.CA.IssueLeaf(o1)
+	l2 := p.Sibling.IssueLeaf(o2)
+	org.ServeOCSP("/ca", p.CA, func(int) OCSPBehaviour { return OCSPGood }, nil)
+	org.ServeOCSP("/sib", p.Sibling, func(int) OCSPBehaviour { return OCSPRevoked }, nil)
+	v, err := NewValidator(VCfg{Mode: "ocsp_only", AIAStrict: true, CacheDuration: "1h", NoCRLConfig: true})
+	mustNoErr(err)
+	defer v.Close()
+	cs.Events = []string{"handshake alice/CA (responder: good)", "handshake alice/Sibling (responder: revoked)"}
+	cs.Obs = []string{classify(v.Verify(l1.Cert, p.CA.Cert, p.Root.Cert)), classify(v.Verify(l2.Cert, p.Sibling.Cert, p.Root.Cert))}
+	cs.Want = []string{"accept", "revoked"}
+	return cs
 }
 
 // ---------------------------------------------------------------- C14
@@ -550,28 +613,17 @@ func runC14(c *Ctx) {
 	var keep []*Validator // Cleanup flushes the process-wide table: validators of the timed cases are closed at the end
 	var keepMu sync.Mutex
 	others := func() {
-		// (1) key: two issuers, same subject and serial
-		wg.Add(1)
-		go func() {
-			defer wg.Done()
-			cs := &c14Case{Name: "same-subject-and-serial-under-two-issuers"}
-			org := NewOrigin()
-			defer org.Close()
-			name := pkix.Name{CommonName: "alice", Organization: []string{"shared"}}
-			serial := nextOCSPSerial()
-			l1 := p.CA.IssueLeaf(LeafOpts{Name: &name, Serial: serial, OCSP: []string{org.URL("/ca")}})
-			l2 := p.Sibling.IssueLeaf(LeafOpts{Name: &name, Serial: serial, OCSP: []string{org.URL("/sib")}})
-			org.ServeOCSP("/ca", p.CA, func(int) OCSPBehaviour { return OCSPGood }, nil)
-			org.ServeOCSP("/sib", p.Sibling, func(int) OCSPBehaviour { return OCSPRevoked }, nil)
-			v, err := NewValidator(VCfg{Mode: "ocsp_only", AIAStrict: true, CacheDuration: "1h", NoCRLConfig: true})
-			mustNoErr(err)
-			defer v.Close()
-			cs.Events = []string{"handshake alice/CA (responder: good)", "handshake alice/Sibling (responder: revoked)"}
-			cs.Obs = []string{classify(v.Verify(l1.Cert, p.CA.Cert, p.Root.Cert)), classify(v.Verify(l2.Cert, p.Sibling.Cert, p.Root.Cert))}
-			cs.Want = []string{"accept", "revoked"}
-			add(cs)
-		}()
-
+		// (1) key: two issuers, same subject and serial — with the usual key identifiers, without an authority key
+		// identifier in the certificates, and without a subject key identifier in the certificates
+		for _, shape := range []string{"", " (certificates without AKI)", " (certificates without SKI)"} {
+			shape := shape
+			wg.Add(1)
+			go func() {
+				defer wg.Done()
+				cs := twoIssuerCase(p, shape)
+				add(cs)
+			}()
+		}
 	}
 	// (2) lifetime: reads more often than the lifetime must not keep the entry alive
 	for _, life := range []time.Duration{400 * time.Millisecond, 700 * time.Millisecond} {
